@@ -540,7 +540,7 @@ def detect_rm(impl_w):
 
 def check(run):
     quick = run.tier == "quick"
-    n_cases = 200 if quick else 6000
+    n_cases = 200 if quick else 3000
     run.coverage["rule"] = (
         "populations of 2-5 versioned nodes (identities, campaigns, a registered custom type; 1-3 versions each from a "
         "boundary palette, STIX 2.0 / 2.1 / mixed), 1-5 relationships with 1-2 versions (self loops, dangling ends, "
